@@ -28,7 +28,7 @@ Definition rx_byte (s : rxs) (b : N) : rxs * rx_out :=
     (if b =? pkt_magic then rx_fresh else s, RxNone)
   else if b =? pkt_magic then
     match r_buf s with
-    | [] => (s, RxNone)
+    | [] => (rx_fresh, RxNone)       (* also cancels a pending escape *)
     | _ => (rx_fresh, if r_crc s =? 0 then RxPacket (removelast (r_buf s)) else RxBadCrc)
     end
   else if b =? pkt_escape then
